@@ -565,12 +565,15 @@ func consensusCodecs() []*codec {
 			return vs
 		}
 		// the payload as the node handles it: EncodeBinary re-sends the received Data
-		out = append(out, &codec{
-			name: "consensus.Payload" + sfx, pkg: "pkg/consensus", gen: gen, dec: decode,
-			enc:     func(v any) ([]byte, error) { p := *v.(*consensus.Payload); return encS(&p) },
-			hash:    func(v any) string { p := *v.(*consensus.Payload); return p.Hash().StringLE() },
-			maxSeed: 400,
-		})
+		// (the envelope does not depend on the state root flag: once is enough)
+		if !sr {
+			out = append(out, &codec{
+				name: "consensus.Payload", pkg: "pkg/consensus", gen: gen, dec: decode,
+				enc:     func(v any) ([]byte, error) { p := *v.(*consensus.Payload); return encS(&p) },
+				hash:    func(v any) string { p := *v.(*consensus.Payload); return p.Hash().StringLE() },
+				maxSeed: 400,
+			})
+		}
 		// the message codec itself: the message is re-encoded from its fields
 		// (Data dropped) and put back into the envelope of the value.
 		out = append(out, &codec{
